@@ -1,1 +1,1 @@
-from . import gates, removes, merge, vclock, mvreg, ctx, counters  # noqa
+from . import gates, removes, merge, vclock, mvreg, ctx, counters, seqmerkle  # noqa
